@@ -67,7 +67,19 @@ fn main() {
             let prop = property(&args[2]).expect("unknown property");
             let tier = orchestrate::tier_from(&args[3]);
             let p = |i: usize| args[i].parse::<u64>().expect("number");
-            orchestrate::worker(prop.as_ref(), tier, p(4), p(5), p(6), p(7), p(8));
+            let (a, b, c, d, e) = (p(4), p(5), p(6), p(7), p(8));
+            // Run the batch on a thread with the default stack size of a spawned Rust thread (2 MiB): callers of the
+            // library are not guaranteed the 8 MiB of a main thread, and recursion that grows with the input shows here.
+            let id = args[2].clone();
+            drop(prop);
+            let h = std::thread::Builder::new()
+                .stack_size(2 << 20)
+                .spawn(move || {
+                    let prop = property(&id).expect("unknown property");
+                    orchestrate::worker(prop.as_ref(), tier, a, b, c, d, e)
+                })
+                .expect("spawn worker thread");
+            let _ = h.join();
         }
         "replay" => {
             if args.len() < 3 {
